@@ -137,7 +137,7 @@ inductive WriteResult where
 def tokenNone : Token := ⟨TOKEN_NONE.getD 0 0, TOKEN_NONE.getD 1 0, TOKEN_NONE.getD 2 0, TOKEN_NONE.getD 3 0⟩
 
 /-- capacity of the `ArrayVec<[u8; 2048]>` in `write_impl` -/
-def COMPRESSION_BUFFER_CAP : Nat := lits_write_impl.getD 0 0
+def COMPRESSION_BUFFER_CAP : Nat := WRITE_COMPRESSION_BUFFER_SIZE
 
 /-- bytes of a packed `PacketHeader` -/
 def hdrBytes (x : Nat × Nat × Nat) (token : Token) : List UInt8 :=
